@@ -38,15 +38,29 @@ func H_c20_dec() {
 		symAssert((dec > 0 && hemi == 'E') || (dec < 0 && hemi == 'W'), "hemisphere-letter-correct")
 	}
 	if symEngine() {
-		d, m := symFmtFloat(0), symFmtFloat(1)
+		var d, m float64
+		if symFmtFloatCount() == 1 {
+			// degrees printed through an integer verb (concrete digits on this
+			// path), minutes through a float verb
+			m = symFmtFloat(0)
+			k, i := 0, 0
+			for ; i < len(s) && s[i] >= '0' && s[i] <= '9'; i++ {
+				k = k*10 + int(s[i]-'0')
+			}
+			symAssert(i < len(s) && s[i] == '-' && ((lat && i == 2) || (!lat && i == 3)), "format DD-MM.MMMMH")
+			d = float64(k)
+		} else {
+			d, m = symFmtFloat(0), symFmtFloat(1)
+		}
 		symAssert(d >= 0 && d <= lim, "degrees-in-range")
 		symAssert(m >= 0, "minutes-non-negative")
 		symAssert(m < 59.99995, "minutes-print-below-60 (argument < 59.99995)")
 		symAssert(d == float64(int(d)), "degrees-are-a-whole-number")
-		if symParam("ACCURACY", 0) == 1 {
-			diff := d*60 + m - abs*60
-			symAssert(diff < 0.00005+1e-9 && diff > -0.00005-1e-9, "stated-position-within-half-a-ten-thousandth-minute")
-		}
+		// accuracy: beyond the solvers as a proof (three chained FP operations),
+		// hunted for counterexamples only; see DESIGN.md section 5
+		diff := d*60 + m - abs*60
+		symAssertHunt(diff < 0.00005+1e-9, "stated-position-within-half-a-ten-thousandth-minute (not above)")
+		symAssertHunt(diff > -0.00005-1e-9, "stated-position-within-half-a-ten-thousandth-minute (not below)")
 	} else if hemi != ' ' {
 		g := c20Re.FindStringSubmatch(s)
 		symAssert(g != nil, "format DD-MM.MMMMH")
@@ -61,7 +75,8 @@ func H_c20_dec() {
 		symAssert(float64(d) <= lim, "degrees-are-a-whole-number-in-range")
 		symAssert(mi < 60, "minutes-print-below-60 (argument < 59.99995)")
 		diff := float64(d)*60 + float64(mi) + float64(mf)/10000 - abs*60
-		symAssert(diff < 0.00005+1e-9 && diff > -0.00005-1e-9, "stated-position-within-half-a-ten-thousandth-minute")
+		symAssert(diff < 0.00005+1e-9, "stated-position-within-half-a-ten-thousandth-minute (not above)")
+		symAssert(diff > -0.00005-1e-9, "stated-position-within-half-a-ten-thousandth-minute (not below)")
 	}
 	symReach("end")
 }
